@@ -1227,8 +1227,15 @@ impl<T: Serialize + for<'de> Deserialize<'de> + Clone + PartialEq + Send + Sync 
             }
         }
 
-        // Sort by timestamp (oldest first for replay)
-        wal_files.sort_by(|a, b| a.file_name().cmp(&b.file_name()));
+        // Sort for replay: rotated files by timestamp (oldest first), then the current
+        // file, which holds the newest records. (By name alone `state.wal` would sort
+        // before every `wal.<timestamp>.wal` and older records would win.)
+        let current_name = format!("state.{WAL_EXTENSION}");
+        let is_current =
+            |path: &PathBuf| path.file_name() == Some(std::ffi::OsStr::new(&current_name));
+        wal_files.sort_by(|a, b| {
+            (is_current(a), a.file_name()).cmp(&(is_current(b), b.file_name()))
+        });
 
         Ok(wal_files)
     }
